@@ -80,6 +80,8 @@ def mat_close(got, want, tol=None):
 def make_noises(rng, d):
     """pairwise distinct positive dyadic noises per control and per reading"""
     pool = [F(k, 8) for k in range(1, 40)]
+    # values that need more than a handful of significant digits (exactly the binary64 value, as a Fraction)
+    pool += [F(0.0123456789), F(1.0 / 3.0), F(2.718281828459045), F(7.61544e-05 * 1.2345678), F(1234567.125)][:3]
     rng.shuffle(pool)
     it = iter(pool)
     process = {s.name: next(it) for s in d.control}
